@@ -108,6 +108,11 @@ def _cases(tier, seed):
             cs.append({'scen': 'tt_scalar', 's': s})
     for op in ('add', 'mul', 'rmul', 'sub'):
         cs.append({'scen': 'tt_scalar', 's': {'op': op, 'N': [2, 3], 'R': [1, 2, 1], 'dtype': 'complex128', 'skind': 'complex'}})
+    # a complex python scalar is a documented operand of `*`: real operands are promoted as in dense arithmetic
+    for dt in ('float64', 'float32'):
+        for op in ('mul', 'rmul'):
+            cs.append({'scen': 'tt_scalar', 's': {'op': op, 'N': [2, 3], 'R': [1, 2, 1], 'dtype': dt, 'skind': 'complex'}})
+            cs.append({'scen': 'tt_scalar', 's': {'op': op, 'N': [3], 'R': [1, 1], 'dtype': dt, 'skind': 'complex'}})
     # ---- kron, full, factories
     for N1, R1, N2, R2 in [([2], [1, 1], [3], [1, 1]), ([2, 3], [1, 2, 1], [3, 1, 2], [1, 3, 2, 1]), ([1], [1, 1], [2, 2], [1, 2, 1])]:
         for how in ('pow', 'kron', 'none_right', 'none_left'):
